@@ -205,24 +205,47 @@ def build():
         return None
 
     def anyall(m, name, ge, env):
-        src = ast.unparse(ge)
+        """The three recursive positions of is_instance, recognised by structure (is_instance applied to the loop variables), not by the names of
+        locals; the iterated expressions are evaluated and the induction-hypothesis predicates applied to those terms."""
+        if len(ge.generators) != 1 or ge.generators[0].ifs:
+            return None
+        gen, el = ge.generators[0], ge.elt
+        if not (isinstance(el, ast.Call) and isinstance(el.func, ast.Name) and el.func.id == "is_instance" and len(el.args) == 2 and not el.keywords):
+            return None
+        tnames = [gen.target.id] if isinstance(gen.target, ast.Name) else ([x.id for x in gen.target.elts] if isinstance(gen.target, ast.Tuple) and all(isinstance(x, ast.Name) for x in gen.target.elts) else None)
+        if tnames is None:
+            return None
+        a0_is_t = isinstance(el.args[0], ast.Name) and el.args[0].id in tnames
+        a1_is_t = isinstance(el.args[1], ast.Name) and el.args[1].id in tnames
         saved = m.env
         try:
             m.env = dict(env)
-            v, t = m.env["value"], m.env["type_"]
-            if src == "(is_instance(value, t) for t in get_args(type_))" and name == "any":
-                m.ctx.check(mem_spec(v.term, args(t.term)), f"{m.contract.key}/recursive-positions-specified[union members]", "ih")
-                return VBool(any_member(v.term, args(t.term)))
-            if src == "(is_instance(item, args[0]) for item in value)" and name == "all":
-                a0 = m.eval(ast.parse("args[0]", mode="eval").body)
-                m.ctx.check(m.equal(m.env["args"], STY.wrap(args(t.term))), f"{m.contract.key}/args-are-the-annotation's", "model")
-                m.ctx.check(all_spec(elems(v.term), a0.term), f"{m.contract.key}/recursive-positions-specified[elements]", "ih")
-                return VBool(all_conf(elems(v.term), a0.term))
-            if src in ("(is_instance(item, item_type) for item, item_type in zip(value, args))",
-                       "(is_instance(item, item_type) for (item, item_type) in zip(value, args))") and name == "all":
-                m.ctx.check(m.equal(m.env["args"], STY.wrap(args(t.term))), f"{m.contract.key}/args-are-the-annotation's", "model")
-                m.ctx.check(zip_spec(elems(v.term), args(t.term)), f"{m.contract.key}/recursive-positions-specified[zip]", "ih")
-                return VBool(zip_conf(elems(v.term), args(t.term)))
+
+            def seq_ty(x):
+                sv = m.seq_value(x) if not isinstance(x, VSeq) else x
+                return sv if sv is not None and sv.sort == STY else None
+            if name == "any" and len(tnames) == 1 and not a0_is_t and a1_is_t:
+                # any(is_instance(<value>, t) for t in <member types>)
+                v = m.eval(el.args[0])
+                ts = seq_ty(m.eval(gen.iter))
+                if isinstance(v, VU) and v.sort == VAL and ts is not None:
+                    m.ctx.check(mem_spec(v.term, ts.term), f"{m.contract.key}/recursive-positions-specified[union members]", "ih")
+                    return VBool(any_member(v.term, ts.term))
+            if name == "all" and len(tnames) == 1 and a0_is_t and not a1_is_t:
+                # all(is_instance(item, <type>) for item in <value>)
+                it = m.eval(gen.iter)
+                ty = m.eval(el.args[1])
+                if isinstance(it, VU) and it.sort == VAL and isinstance(ty, VU) and ty.sort == TY:
+                    m.ctx.check(all_spec(elems(it.term), ty.term), f"{m.contract.key}/recursive-positions-specified[elements]", "ih")
+                    return VBool(all_conf(elems(it.term), ty.term))
+            if name == "all" and len(tnames) == 2 and [getattr(x, "id", None) for x in el.args] == tnames and isinstance(gen.iter, ast.Call) \
+                    and ast.unparse(gen.iter.func) == "zip" and len(gen.iter.args) == 2 and not gen.iter.keywords:
+                # all(is_instance(item, item_type) for item, item_type in zip(<value>, <types>))
+                it = m.eval(gen.iter.args[0])
+                ts = seq_ty(m.eval(gen.iter.args[1]))
+                if isinstance(it, VU) and it.sort == VAL and ts is not None:
+                    m.ctx.check(zip_spec(elems(it.term), ts.term), f"{m.contract.key}/recursive-positions-specified[zip]", "ih")
+                    return VBool(zip_conf(elems(it.term), ts.term))
         finally:
             m.env = saved
         return None
